@@ -172,6 +172,79 @@ fn check_precision(r: &Report, step: u64, delta: u64, f: u64) -> bool {
     true
 }
 
+/// Child mode: answers a sequence of reported-precision queries in one fresh process (the
+/// caches behind `Timer::precision` are process-wide), one output line per query.
+/// Script: comma-separated `os` / `tsc`; the TSC clock steps by `step` ticks at `f` Hz.
+fn precision_child(script: &str) -> ! {
+    let mut it = script.split(';');
+    let step: u64 = it.next().unwrap().parse().unwrap();
+    let f: u64 = it.next().unwrap().parse().unwrap();
+    let seq = it.next().unwrap();
+    clock::enable(f, 0, step, 1 << 40);
+    clock::set_quantum(step);
+    for q in seq.split(',') {
+        let v = match q {
+            "os" => verif::reported_precision(None),
+            "tsc" => verif::reported_precision(Some(f)),
+            other => panic!("unknown query {other}"),
+        };
+        println!("{q} {v}");
+    }
+    std::process::exit(0)
+}
+
+/// The precision *reported* for a timer (the cached path every consumer uses) in a process
+/// that queries both timers, in every order up to three queries.
+fn check_reported(r: &Report, step: u64, f: u64, seq: &str) {
+    let want_tsc = reference(0, step, f);
+    let out = std::process::Command::new(std::env::current_exe().unwrap())
+        .env("C11_PRECISION_CHILD", format!("{step};{f};{seq}"))
+        .output()
+        .expect("spawn c11 child");
+    let text = String::from_utf8_lossy(&out.stdout).to_string();
+    let answers: Vec<(String, u128)> = text
+        .lines()
+        .filter_map(|l| {
+            let (k, v) = l.split_once(' ')?;
+            Some((k.to_string(), v.parse().ok()?))
+        })
+        .collect();
+    let mut problem = None;
+    if !out.status.success() || answers.len() != seq.split(',').count() {
+        problem = Some(format!("the process did not answer every query ({:?}, stderr {})", out.status, String::from_utf8_lossy(&out.stderr)));
+    } else {
+        // The OS clock is the host's; its step is not under the harness's control, only
+        // bounded: no monotonic clock this code runs on is coarser than 100 ms, and the
+        // virtual TSC steps used here are all >= 1 s, so a swapped answer is unmistakable.
+        const OS_BOUND: u128 = 100_000_000_000;
+        let mut os_first: Option<u128> = None;
+        for (k, v) in &answers {
+            match k.as_str() {
+                "tsc" if *v != want_tsc => {
+                    problem = Some(format!("the TSC timer stepping by {want_tsc} ps reported a precision of {v} ps"));
+                }
+                "os" if *v == 0 || *v >= OS_BOUND => {
+                    problem = Some(format!("the OS timer reported a precision of {v} ps (the virtual TSC steps by {want_tsc} ps)"));
+                }
+                "os" => {
+                    if *os_first.get_or_insert(*v) != *v {
+                        problem = Some(format!("the OS timer reported two precisions in one process: {:?} and {v}", os_first));
+                    }
+                }
+                _ => {}
+            }
+        }
+    }
+    if let Some(p) = problem {
+        r.violation(Violation {
+            sig: json!({"check":"reported_precision"}),
+            text: format!("queries [{seq}] in one process (TSC step {step} ticks at {f} Hz): {p}; answers {answers:?}"),
+            case: json!({"kind":"reported","step":step,"f":f.to_string(),"seq":seq}),
+        });
+    }
+    r.add(&r.transitions, answers.len() as u64);
+}
+
 fn parse_u64(v: &serde_json::Value) -> u64 {
     match v {
         serde_json::Value::String(s) => s.parse().unwrap(),
@@ -180,6 +253,9 @@ fn parse_u64(v: &serde_json::Value) -> u64 {
 }
 
 fn main() {
+    if let Ok(script) = std::env::var("C11_PRECISION_CHILD") {
+        precision_child(&script);
+    }
     let cli = Cli::parse();
     mc_seq::quiet_panics();
     let r = Report::new("c11", &cli);
@@ -198,6 +274,7 @@ fn main() {
             "precision" => {
                 check_precision(&r, parse_u64(&case["step"]), parse_u64(&case["delta"]), parse_u64(&case["f"]));
             }
+            "reported" => check_reported(&r, parse_u64(&case["step"]), parse_u64(&case["f"]), case["seq"].as_str().unwrap()),
             k => panic!("unknown case kind {k}"),
         }
         r.case(1);
@@ -278,7 +355,27 @@ fn main() {
         }
     }
 
+    // (e) the reported (cached) precision, both timers queried in one process, every order
+    let mut seqs: Vec<String> = Vec::new();
+    for len in 1..=3u32 {
+        for mask in 0..(1u32 << len) {
+            let q: Vec<&str> = (0..len).map(|i| if mask >> i & 1 == 1 { "tsc" } else { "os" }).collect();
+            if q.contains(&"tsc") {
+                seqs.push(q.join(","));
+            }
+        }
+    }
+    let reported: &[(u64, u64)] = if cli.thorough { &[(1, 1), (3, 2), (7, 5), (1000, 999)] } else { &[(1, 1), (7, 5)] };
+    let jobs: Vec<(u64, u64, String)> = reported.iter().flat_map(|&(s, f)| seqs.iter().map(move |q| (s, f, q.clone()))).collect();
+    par_for(jobs.len() as u64, |i| {
+        let (s, f, q) = &jobs[i as usize];
+        check_reported(&r, *s, *f, q);
+        r.case(1);
+        r.outcome(format!("reported:{q}"));
+    });
+
     r.set_bounds(json!({
+        "reported_precision_processes": jobs.len(),
         "lattice_B": bs.len(), "lattice_F": fs.len(), "dense_cube": dense,
         "durations": durations().len(), "precision_cases": precision_cases,
         "reference": "256-bit integer floor((b-a)*10^12/f)"
